@@ -55,3 +55,11 @@ func init() {
 	props["C09"] = []Stream{{"loop", genLoop}, {"loop-restart", genLoopRestart}}
 	props["C05"] = []Stream{{"loop-restart", genLoopRestart}}
 }
+
+func init() {
+	props["C17"] = []Stream{{"conc", genConc}}
+}
+
+func init() {
+	props["C16"] = []Stream{{"recv", genRecv}, {"loop", genLoop}}
+}
